@@ -1,5 +1,6 @@
 """Rules R12.* -- tabulated omega is used verbatim on a matching grid and rejected otherwise."""
 import ast
+import re
 from .. import nf as N
 from .. import pw as P
 from .. import natives as NAT
@@ -189,7 +190,22 @@ def _rule_fromfile(ctx, rule, second):
             if x.get('npos', 1) > 1:
                 ctx.undecided(rule, FF + '.calculate', 'np.loadtxt is called with positional options', m.loc())
             nd = kw.pop('ndmin', 0)
-            for harmless in ('dtype', 'comments', 'delimiter', 'encoding'):
+            dt = kw.pop('dtype', None)
+            if dt is not None:
+                dts = str(dt)
+                m_ = re.search(r"(?:numpy|builtins)\.(\w+)", dts)
+                dname = m_.group(1) if m_ else dts.strip("'\"<>")
+                if dname in ('float64', 'double', 'float', 'float_', 'f8', 'd', '<f8', 'longdouble', 'float128'):
+                    pass
+                elif dname in ('float32', 'single', 'float16', 'half', 'f4', 'f2', 'f', 'e', '<f4', 'int', 'int64', 'int32', 'intc',
+                               'int_', 'i8', 'i4', 'i', 'l', 'int16', 'int8', 'uint8', 'bool', 'bool_'):
+                    ctx.violation(rule, FF + '.calculate', 'loadtxt-dtype' + ksfx,
+                                  'np.loadtxt(..., dtype=%s): the file is parsed into a narrower type than the double precision its '
+                                  'text denotes, so the values handed on (and the omega built from them) are rounded -- not the '
+                                  'tabulated values bit for bit' % dname, m.loc())
+                else:
+                    ctx.undecided(rule, FF + '.calculate', 'np.loadtxt is called with dtype=%s' % dts[:60], m.loc())
+            for harmless in ('comments', 'delimiter', 'encoding'):
                 kw.pop(harmless, None)
             if nd not in (0, None):
                 ctx.violation(rule, FF + '.calculate', 'loadtxt-ndmin' + ksfx,
